@@ -55,6 +55,8 @@ DlvPlan ==
     {Ser("dlv", via, n, l, fc, fmt, DlvTable[d], "lat") :
         via \in {"write", "ref"}, n \in DlvSizes, fmt \in Fmts, l \in {1, 3, 4, 5}, d \in 2..Len(DlvTable),
         fc \in FaceChoices("ref", 3, TRUE) \cup FaceChoices("ref", 3, FALSE)}
+LargeDlv == {n \in DlvSizes : n >= 256}
+MinLargeDlv == IF LargeDlv = {} THEN 0 ELSE CHOOSE n \in LargeDlv : \A m \in LargeDlv : n <= m
 DlvKeep(c) ==
     LET s == c.ser IN
     /\ s.lay \in Layouts(s.via)
@@ -67,6 +69,10 @@ DlvKeep(c) ==
     /\ (s.n >= 256 /\ s.faces.on) => /\ s.faces.quads = (s.faces.ct = "uint")
                                      /\ (s.faces.ct = "uchar" => s.dlv.kind \in {"bufio", "file"})
     /\ (s.n >= 256 /\ ~s.faces.on) => s.dlv.kind \in {"chunk", "file"}
+    \* several consecutive large sizes shift the face element through the residues of the 4096-byte period: only
+    \* the deliveries with that period run on all of them (a count field across a refill boundary)
+    /\ (s.n >= 256 /\ s.n # MinLargeDlv) => /\ (s.dlv.k = 4096 \/ s.dlv.kind = "file")
+                                           /\ s.faces.on /\ s.faces.ct # "uchar" /\ s.fmt # "ascii"
 \* BYTES: all 256 values of every 8-bit channel, bit-exact, every encoding, every layout, via both paths
 BytePlan ==
     {Ser("byte", via, n, l, fc, fmt, dlv, "bits") :
